@@ -108,6 +108,9 @@ def cmp_(op, a, b):
     if op in ("==", "!="):
         if a == b:
             return C(1 if op == "==" else 0)
+        for x, y in ((a, b), (b, a)):
+            if isinstance(x, tuple) and x and x[0] in ("fn", "str", "addr", "strobj", "decay") and y == C(0):
+                return C(0 if op == "==" else 1)
         # constants to the right
         if is_const(a) or (not is_const(b) and repr(a) > repr(b)):
             a, b = b, a
@@ -128,6 +131,8 @@ def truthy(t):
     """term -> boolean condition term"""
     if is_const(t):
         return C(1 if t[1] else 0)
+    if t[0] in ("fn", "str", "addr", "strobj", "decay", "closure"):
+        return C(1)  # address of a function / object / literal is never null
     if t[0] in ("cmp", "not", "and", "or"):
         return t
     return cmp_("!=", t, C(0))
@@ -856,7 +861,7 @@ class Engine:
                     src = s.mem.get(("copyof", o))
                     clo = s.mem.get(src) if src is not None else None
                 if clo and clo[0] == "closure":
-                    outs += self.call_closure(s, self._fr(s, fr), clo, args[1:], loc)
+                    outs += self.call_closure(s, self._fr(s, fr), clo, args[1:], loc, callee_id=fnref["id"])
                 else:
                     for s2, av in self.ev_args(s, self._fr(s, fr), args[1:], ["v"] * (len(args) - 1)):
                         outs += self.opaque_call(s2, name, av, o, loc, e)
@@ -919,7 +924,8 @@ class Engine:
             r = ("call", name, tuple(av), thisv)
         else:
             r = ("ucall", next(self.uid), name, tuple(av), thisv)
-        self.emit(st, "CALL", name, list(av), thisv, loc=loc, extra={"ret": r, "fnid": (e.get("fn") or {}).get("id"), "rt": e.get("t")})
+        vals = [self.load(st, a) if (isinstance(a, tuple) and a and a[0] in ("var", "tmp") and a in st.mem) else a for a in av]
+        self.emit(st, "CALL", name, list(av), thisv, loc=loc, extra={"ret": r, "fnid": (e.get("fn") or {}).get("id"), "rt": e.get("t"), "argvals": vals})
         return [(st, r)]
 
     def inline(self, st, fn, thisv, av, pmodes, loc, want_lv=False):
@@ -990,8 +996,15 @@ class Engine:
             outs.append(s)
         return outs
 
-    def call_closure(self, st, fr, clo, args, loc):
+    def call_closure(self, st, fr, clo, args, loc, callee_id=None):
         lam = self._closures[clo[2]]
+        if lam.get("generic"):
+            spec = next((sp for sp in lam.get("specs", []) if sp["id"] == callee_id), None)
+            if spec is None:
+                raise Inconclusive("generic lambda call without a matching instantiation at %s" % loc)
+            lam = dict(lam)
+            lam["params"] = spec["params"]
+            lam["body"] = spec["body"]
         fid = next(self.uid)
         f = Frame(fid, {"n": "lambda", "params": lam["params"]}, None, fr.depth + 1)
         f.parent_closure = clo[3]
